@@ -38,7 +38,7 @@ var lay = layouts[0]
 func lastSeg(s string) string { return s[strings.LastIndex(s, "/")+1:] }
 
 // behaviours of a generator for the (single enabled) type T of each package
-var behaviours = []string{"render", "nothing", "skip", "ignore", "ignore+render"}
+var behaviours = []string{"render", "nothing", "skip", "ignore", "ignore+render", "render-only-in-defer"}
 
 func action(b string) pipe.Action {
 	switch b {
@@ -52,11 +52,14 @@ func action(b string) pipe.Action {
 		return pipe.Action{Ret: "ignore"}
 	case "ignore+render":
 		return pipe.Action{Render: "var V_$T_$G = 2\n", Ret: "ignore"}
+	case "render-only-in-defer":
+		// collect-then-emit: nothing from GenerateType, everything from a Defer callback
+		return pipe.Action{Defers: []pipe.Action{{Render: "var V_$T_$G = 3\n"}}}
 	}
 	panic(b)
 }
 
-func renders(b string) bool { return b == "render" || b == "ignore+render" }
+func renders(b string) bool { return b == "render" || b == "ignore+render" || b == "render-only-in-defer" }
 
 // pre-existing files of a package (bit i of the subset index)
 func preFiles(base, pkg string) []struct{ name, content string } {
@@ -394,7 +397,7 @@ func replay(c *core.Ctx, raw json.RawMessage) {
 func init() {
 	core.Register(&core.Prop{
 		ID: "C07", Level: "model_checking", Run: run, Replay: replay,
-		Rule: "histories of 1 and 2 real runs over all 25 (g1,g2) behaviour pairs {render, nothing, ErrSkip, ErrIgnore, ErrIgnore+render} per run x All on/off per run x base names, each run processing one package per subset of 8 pre-existing file kinds (every package also holds an in-package test file, an external-test-package file, a file excluded by a build constraint and a testdata directory with an output look-alike) plus an imported and a never-selected package, in 4 module layouts (two with the module path re-occurring inside package paths, one with a nested module below the root whose path extends the module path and which the imported package imports); every file of the module is compared before/after; non-trivial = every case (each contains look-alike and stale files); states = distinct (behaviour pair, All, run index, #created, #changed, #deleted)",
+		Rule: "histories of 1 and 2 real runs over all 36 (g1,g2) behaviour pairs {render, nothing, ErrSkip, ErrIgnore, ErrIgnore+render, render only from a Defer callback} per run x All on/off per run x base names, each run processing one package per subset of 8 pre-existing file kinds (every package also holds an in-package test file, an external-test-package file, a file excluded by a build constraint and a testdata directory with an output look-alike) plus an imported and a never-selected package, in 4 module layouts (two with the module path re-occurring inside package paths, one with a nested module below the root whose path extends the module path and which the imported package imports); every file of the module is compared before/after; non-trivial = every case (each contains look-alike and stale files); states = distinct (behaviour pair, All, run index, #created, #changed, #deleted)",
 		Assumptions: []string{
 			"a package counts as processed when a generator callback was invoked for it (cached packages of a second All run are not processed)",
 			"<base>.txt only has to stay inside the allowed set",
